@@ -201,7 +201,7 @@ def main():
         }],
         "checks": checks,
         "not_applicable": na,
-        "notes": "All checks are static analyses of /repo's working tree. fix: commits in /repo repair genuine defects found by the rules (listed as fixed: lines in known_findings.txt). Clauses that several properties share are decided under each of them (Ctx.Borrow, checker/borrowed.go). tools/selftest.py runs all checks against the breaking changes under seeded/ and mutants/ (must fire) and the behaviour-preserving refactorings under equiv/ (must stay silent), each in a scratch worktree; the last result is SELFTEST.md.",
+        "notes": "All checks are static analyses of /repo's working tree. fix: commits in /repo repair genuine defects found by the rules (listed as fixed: lines in known_findings.txt). Clauses that several properties share are decided under each of them (Ctx.Borrow, checker/rules_shared.go). tools/selftest.py runs all checks against the breaking changes under seeded/ and mutants/ (must fire) and the behaviour-preserving refactorings under equiv/ (must stay silent), each in a scratch worktree; the last result is SELFTEST.md.",
     }
     with open(os.path.join(HERE, "MANIFEST.json"), "w") as f:
         json.dump(manifest, f, indent=1)
